@@ -1,27 +1,25 @@
 (* C02 — property theorems.  Only statements, each closed by [exact], each followed by
    Print Assumptions.
 
-   State after round 4.  PROVED for all inputs: HullNoOverflow (C02_hull_no_overflow: the label's output
-   never outgrows its own rows - C19's write bound, no premise left), guard_irrelevant
-   (C02_guard_irrelevant, C02_slack_irrelevant: the in-place guard, hence the pixels of other labels,
-   never change a label's polygon), dead_top (C02_dead_core + dup_dead), pivot_protected
-   (C02_pivot_protected), and clause (c) for the COMPLETE output polygon of the kernel as written
-   (C02_hull_label_contains_all: every pixel on the inner side of every edge, incl. the edges at the
-   right-most vertex and the closing edge); with (a) C02_vertices_subset, no repeated vertex
-   (fin_stack3) and local convexity of the non-wrapping triples C02_emit_chain_convex.
-   STILL A PREMISE of the two batch theorems: HullLabelCorrect = HullSpec pts (hull_label m pts slack).
-   Missing lemmas: turn_strict - every cyclic triple of the output is STRICTLY convex.  Reduction
-   available: a non-strict triple is collinear; with CONVEX (chain) resp. the stop condition of the
-   final prune it is a U-turn; both of its edges are supporting (C02_hull_label_contains_all), so all
-   pixels are collinear; then every chain triple is a U-turn, impossible for >= 4 vertices and, for 3,
-   contradicted by the final prune.  Plus the one-column label and the <= 2-vertex clauses of HullSpec
-   (hs_one, hs_two).  hull_unique up to rotation: missing successor_unique.
+   State after round 5: HullLabelCorrect is a THEOREM (C02_hull_label_correct): for every label the
+   kernel may see (label_ok: 0 <= i <= max_i, rows in buffer order) and every slack >= 0 the polygon
+   emitted by the kernel as written meets the full HullSpec.  Hence C02_convex_hull_ijv_correct and
+   C02_convex_hull_correct have no premise left: for every ijv list with non-negative rows / every
+   label image and every repeat-free index list the model returns, in request order, for each
+   requested label a polygon that is a subset of its pixels, without repeated vertex, strictly convex
+   in one sense, containing every pixel (absent labels: count 0); by C02_hull_exactly_extreme its
+   vertices are exactly the extreme points, by C02_guard_irrelevant it does not depend on the other
+   labels.  Layers: lower chain (C02_lower_pass_contains), upper chain (C02_upper_chain_contains),
+   pivot_protected, clause (c) complete (C02_hull_label_contains_all), dead_top / guard_irrelevant /
+   HullNoOverflow, turn_strict + assembly (Proofs/HullStrict.v: strict_hullspec), one-column label.
+   The only _partial left: rotation form of hull_unique (vertex set and list up to permutation are
+   determined: C02_hull_vertices_unique; missing successor_unique).
    (stack_nodup is refuted: C02_stack_nodup_refuted.) *)
 From Coq Require Import ZArith List Bool Permutation.
 From Centro Require Import Base.Sx Model.Hull Spec.HullSpec
   Proofs.HullEmit Proofs.HullGeom Proofs.HullPerm Proofs.HullBatch Proofs.HullTop
   Proofs.HullOutline Proofs.HullUnique Proofs.HullBelow Proofs.HullAbove Proofs.HullCorrect
-  Proofs.HullImage Proofs.HullWrites Proofs.HullGuard Proofs.HullPoly Proofs.HullSweep Proofs.HullSweep44 Proofs.HullSweep34 Proofs.HullSweep53.
+  Proofs.HullImage Proofs.HullWrites Proofs.HullGuard Proofs.HullStrict Proofs.HullPoly Proofs.HullSweep Proofs.HullSweep44 Proofs.HullSweep34 Proofs.HullSweep53.
 Import ListNotations.
 Open Scope Z_scope.
 
@@ -188,25 +186,39 @@ Theorem C02_outline_hull_is_full_hull : forall im l V, 0 < l ->
 Proof. exact outline_hull_is_full_hull. Qed.
 Print Assumptions C02_outline_hull_is_full_hull.
 
-(* the batch function: lexsort, request walk with slack >= 0, reorder, absent labels — all discharged;
-   the two per-label facts are the premises *)
-Theorem C02_convex_hull_ijv_correct_partial : HullLabelCorrect ->
+(* turn_strict, geometric core: two supporting edges that run back along one line force every pixel
+   onto that line *)
+Theorem C02_reversal_line : forall a b c s : pt, cross a b c = 0 ->
+  (snd a < snd b /\ snd c < snd b) \/ (snd b < snd a /\ snd b < snd c) ->
+  0 <= cross a b s -> 0 <= cross b c s -> cross a b s = 0.
+Proof. exact reversal_line. Qed.
+Print Assumptions C02_reversal_line.
+
+(* HullLabelCorrect: the per-label kernel as written (guard, any slack >= 0) is correct for ALL inputs *)
+Theorem C02_hull_label_correct : forall m pts slack, label_ok m pts -> 0 <= slack ->
+  HullSpec pts (hull_label m pts slack).
+Proof. exact hull_label_correct. Qed.
+Print Assumptions C02_hull_label_correct.
+
+(* the batch function, Full: lexsort, request walk with slack >= 0, reorder, absent labels, per-label
+   correctness - no premise *)
+Theorem C02_convex_hull_ijv_correct :
   forall ijv indexes, NoDup indexes -> (forall x, In x ijv -> 0 <= r_i x) ->
   let res := fst (convex_hull_ijv ijv indexes) in
   BatchSpec ijv indexes (rows_of res) (counts_of res).
-Proof. exact convex_hull_ijv_correct_partial2. Qed.
-Print Assumptions C02_convex_hull_ijv_correct_partial.
+Proof. exact convex_hull_ijv_correct. Qed.
+Print Assumptions C02_convex_hull_ijv_correct.
 
-(* the image entry point, against ALL pixels of every requested label *)
-Theorem C02_convex_hull_correct_partial : HullLabelCorrect ->
+(* the image entry point, Full, against ALL pixels of every requested label *)
+Theorem C02_convex_hull_correct :
   forall im indexes, NoDup indexes ->
   match convex_hull im indexes with
   | HEmpty2 => indexes = []
   | HBlank n => n = length indexes /\ forall l, pts_of (all_ijv im) l = []
   | HRows r => BatchSpec (all_ijv im) indexes (rows_of (fst r)) (counts_of (fst r))
   end.
-Proof. exact convex_hull_correct_partial2. Qed.
-Print Assumptions C02_convex_hull_correct_partial.
+Proof. exact convex_hull_correct. Qed.
+Print Assumptions C02_convex_hull_correct.
 
 (* the outline pre-filter only drops pixels that are no vertex of the hull of the full set *)
 Theorem C02_outline_keeps_extreme : forall S V v, HullSpec S V -> In v V ->
